@@ -211,6 +211,23 @@ SerdeOk(ev) ==
      /\ SafeEq(RDoc(want), r.tree_back) /\ DocEq(r.tree_back.v, d)
      /\ SafeEq(RDoc(want), r.bytes_back)
 
+\* to_serde_json on arbitrary JSON text: the serde value is what the text denotes; a number beyond the
+\* double range (an infinity for this crate's parser) has no serde_json representation: an error
+RECURSIVE HasHugeLex(_)
+HasHugeLex(d) ==
+  CASE d.k = "num" -> d.r = "lex" /\ (RNVerdict(d.lx, BytesToBits(PosInf.b)) = "yes" \/ RNVerdict(d.lx, BytesToBits(NegInf.b)) = "yes")
+    [] d.k = "arr" -> \E i \in 1..Len(d.a) : HasHugeLex(d.a[i])
+    [] d.k = "obj" -> \E i \in 1..Len(d.o) : HasHugeLex(d.o[i][2])
+    [] OTHER -> FALSE
+SerdeRawOk(ev) ==
+  LET p == Parse(ev.inp[1], FALSE)
+      r == ev.res
+  IN /\ r.t = "serderaw"
+     /\ IF p = Err THEN r.bytes.t = "err" /\ r.object.t = "err"
+        ELSE IF HasHugeLex(p) THEN r.bytes.t = "err" /\ (IF p.k = "obj" THEN r.object.t = "err" ELSE r.object.t = "none")
+        ELSE /\ r.bytes.t = "serde" /\ Matches(p, r.bytes.v) # "no"
+             /\ (IF p.k = "obj" THEN r.object.t = "serde" /\ r.object.v = r.bytes.v ELSE r.object.t = "none")
+
 ----------------------------------------------------------------------------
 (* decoding untrusted bytes (C10) *)
 RECURSIVE StringsWellFormed(_)
@@ -375,6 +392,7 @@ Accept(ev) ==
     [] op = "parse_value" -> ParseValueOk(ev)
     [] op = "render" -> RenderOk(ev)
     [] op = "serde" -> SerdeOk(ev)
+    [] op = "serde_raw" -> SerdeRawOk(ev)
     [] op = "value_api" -> ValueApiOk(ev)
     [] op = "rand_value" -> RandValueOk(ev)
     [] op = "from_conv" -> FromConvOk(ev)
